@@ -2,18 +2,28 @@
    harness realises, the observation vector, and the monitors of property 3 on observed traces.
 
    Events   [1; mode; hold; block; ops...]  client call, mode 0 HoldLock / 1 TryHoldLock / 2 HoldLockMaybeAsync,
-                                            ops: 0 broadcast(), 1 getWaitCh(), 2 g++, 3+v g := v
+                                            ops: 0 broadcast(), 1 getWaitCh(), 2 g++, 3+v g := v, 99 the callback PANICS
+                                            here (after having stayed inside, if hold); the caller recovers the panic.
+                                            Not enabled: HoldLockMaybeAsync with a panicking callback while the mutex is
+                                            held (the panic would be raised on the library's own goroutine, which nobody
+                                            can recover: the process dies - in the unchanged code too)
             [2; pk; k; pre; slow]           Wait(ctx, pred pk k); pk 4 = nil callback, 5 = nil context
             [3; i] actor i runs its critical section   [4; i] cancel the context of Wait actor i
             [5; i] actor i returns from its callback (it was holding the mutex)
             [6; i] Wait actor i leaves the HoldLock exit gate (reaches its select)
    Observation  g :: #actors :: status of every actor ++ closed flag (0/1) of every channel handed to a client callback
             status 1 at a HoldLock gate, 2 blocked, 3 returned nil / done, 4 returned context.Canceled, 5 TryHoldLock false,
-                   6 inside its callback holding the mutex, 7 at the exit gate, 8 argument error, 10+e predicate error e *)
+                   6 inside its callback holding the mutex, 7 at the exit gate, 8 argument error, 10+e predicate error e,
+                   13 the client's callback panicked and the caller recovered it;
+                   never produced by the model: 9 anomaly / Wait returned some other error, 14 Wait returned
+                   context.DeadlineExceeded, 15 Wait returned the cause of its context (hctx.ErrCause).
+            The contexts of the Wait calls are plain, deadline-like or cancelled-with-a-cause in turn (harness/hctx, chosen
+            from the number of Wait calls so far); Wait returns the literal context.Canceled for all of them, so the flavour
+            is not part of the event; clause 2 judges 9 / 14 / 15 *)
 From Util Require Import Common.Base Common.ListLemmas Bcast.Model.
 
 Definition dec_op (n : N) : op :=
-  match n with 0 => OBcast | 1 => OGet | 2 => OInc | _ => OSet (n - 3) end%N.
+  match n with 0 => OBcast | 1 => OGet | 2 => OInc | 99 => OPanic | _ => OSet (n - 3) end%N.
 
 Definition settle (s : st) : st := fold_left (fun s a => step s (Wake a)) (seq 0 (length (acts s))) s.
 
@@ -32,7 +42,7 @@ Definition hstep (s : st) (e : list N) : option (st * list N) :=
   | 1 :: mode :: hold :: block :: ops =>
     match bit hold, bit block with
     | Some h, Some bl =>
-      if N.ltb mode 3 && negb (N.eqb mode 2 && bl)
+      if N.ltb mode 3 && negb (N.eqb mode 2 && bl) && negb (N.eqb mode 2 && panics (map dec_op ops) && sheld s)
       then ret (settle (step s (CallClient (N.to_nat mode) (map dec_op ops) h bl)))
       else None
     | _, _ => None
@@ -77,7 +87,10 @@ Definition hstep (s : st) (e : list N) : option (st * list N) :=
 (* ---------------- monitors (on the implementation's observations only) ----------------
    clauses of property 3:
      1  Wait returned nil although its predicate is not true on the guarded value
-     2  Wait returned an error that is not the error its predicate returns on the guarded value
+     2  Wait returned an error other than context.Canceled (status >= 8: a predicate error 10+e, but also 9 / 14 / 15 =
+        some other error / context.DeadlineExceeded / the cause of its context, e.g. from code that returns ctx.Err() or
+        context.Cause(ctx) where Wait returns context.Canceled) that is not the error its predicate returns on the
+        guarded value
      3  Wait returned context.Canceled although its context was never cancelled
      4  a Wait call is blocked while the guarded value satisfies its predicate (or makes it fail), and every
         write of the value since the last broadcast was followed by a broadcast
@@ -102,10 +115,12 @@ Definition mon_op (de : bool * list bool) (p : op) : bool * list bool :=
   match p with
   | OBcast => (false, map (fun _ => true) (snd de))
   | OGet => (fst de, snd de ++ [false])
+  | OPanic => de
   | _ => (true, snd de)
   end.
 
-Definition m_ops (m : mactor) : list op := match mkd m with KClient ops _ _ => ops | _ => [] end.
+(* the operations the callback of a client really performs: those before its first OPanic *)
+Definition m_ops (m : mactor) : list op := match mkd m with KClient ops _ _ => upto_panic ops | _ => [] end.
 Definition m_wait (m : mactor) : option (N * N) :=
   match mkd m with KWait pk k _ => if N.ltb pk 4 then Some (pk, k) else None | _ => None end.
 Definition is_true (r : pres) : bool := match r with PTrue => true | _ => false end.
@@ -130,7 +145,7 @@ Definition mon_ops_ran (mas1 : list mactor) (nold : nat) (e sts : list N) : list
   | 1 :: mode :: _ :: _ :: ops =>
     if N.eqb mode 0 then []
     else match nth_error sts nold with
-         | Some st => if N.eqb st 5 || N.eqb st 1 then [] else map dec_op ops
+         | Some st => if N.eqb st 5 || N.eqb st 1 then [] else upto_panic (map dec_op ops)
          | None => []
          end
   | _ => []
